@@ -503,7 +503,14 @@ def low_rank_root(ctx):
       e_src = '(e0 * mask)'
     else:
       e_src = 'e0'
-    inv = f'jnp.where({e_src} == 0.0, 0.0, jnp.power(jnp.maximum({e_src}, ridge), -1.0 / p))'
+    # inv_e = where(<zero guard>, 0, max(e, ridge)^(-1/p)): the power by formula, the guard by point evaluation (shared with C01.E1)
+    from .C01 import _guarded_inverse_power
+    pw_exp = spec_term(ev, f'jnp.power(jnp.maximum({e_src}, ridge), -1.0 / p)', env)
+    W = _guarded_inverse_power(ctx, fi, a['eigvals'], pw_exp, spec_term(ev, e_src, env), ridge, tag, cmpr)
+    if W is None:
+      continue
+    env['W'] = W
+    inv = 'W'
     if neg:
       inv_o = f'jnp.roll({inv}, -(d - ps))'
       u_o = 'jnp.roll(u, -(d - ps), axis=1)'
